@@ -103,13 +103,22 @@ macro_rules! str_core {
                     None => break,
                 }
             }
+            // what is left in the iterator, seen through `as_str`, and (every other script) consumed through `last`
+            let rest = d.as_str().to_string();
+            let mut tail = String::new();
             if forget {
                 std::mem::forget(d);
+            } else if script.len() % 2 == 0 {
+                tail.push('^');
+                tail.extend(d.last());
             } else {
                 drop(d);
             }
             out.push('|');
             out.push_str(&back);
+            out.push('#');
+            out.push_str(&rest);
+            out.push_str(&tail);
             out
         }
     };
@@ -463,9 +472,19 @@ pub fn step(v: &mut dyn StrLike, model: &mut String, ctx: &mut VCtx) {
                             None => break,
                         }
                     }
-                    drop(d);
+                    let rest = d.as_str().to_string();
+                    let mut tail = String::new();
+                    if script.len() % 2 == 0 {
+                        tail.push('^');
+                        tail.extend(d.last());
+                    } else {
+                        drop(d);
+                    }
                     out.push('|');
                     out.push_str(&back);
+                    out.push('#');
+                    out.push_str(&rest);
+                    out.push_str(&tail);
                     out
                 }),
             )
